@@ -312,7 +312,7 @@ pub(crate) fn run(seed: u64, n: u64, out: &mut Out) {
                 let proven: Option<packed::Byte32> = net.peers.get_state(&peer).and_then(|st| st.get_prove_state().map(|ps| ps.get_last_header().header().hash()));
                 for (j, (h, p)) in bl.iter().enumerate() {
                     if *p && Some(h) != proven.as_ref() {
-                        problems.push(format!("[C06-unproven-block-marked-proved] entry {} of the record starting at {} is marked proved although its hash is not the sender's proven header ({})", j, s0, what));
+                        problems.push(format!("[C06-unproven-block-marked-proved] [C02-unproven-matched-block-marked-proved] entry {} of the record starting at {} is marked proved although its hash is not the sender's proven header ({})", j, s0, what));
                         break;
                     }
                 }
@@ -344,7 +344,7 @@ pub(crate) fn run(seed: u64, n: u64, out: &mut Out) {
             {
                 let mem: Vec<(packed::Byte32, bool)> = net.peers.matched_blocks().read().map(|g| g.iter().map(|(h, v)| (h.pack(), v.0)).collect()).unwrap_or_default();
                 if let Some((h, _)) = mem.iter().find(|(h, p)| *p && bc.chain.number_of(h).is_none()) {
-                    problems.push(format!("[C06-unproven-block-marked-proved] after the block proofs the matched block {:#x} is marked proved although no proof covers it (it is not on the proven chain: the server reported it missing)", h));
+                    problems.push(format!("[C06-unproven-block-marked-proved] [C02-unproven-matched-block-marked-proved] after the block proofs the matched block {:#x} is marked proved although no proof covers it (it is not on the proven chain: the server reported it missing)", h));
                 }
             }
             if what == "substituted-block-hash" && hashes.iter().any(|h| h == &other.chain.headers[other.tip() as usize].hash()) && min_after > min_before {
@@ -354,7 +354,7 @@ pub(crate) fn run(seed: u64, n: u64, out: &mut Out) {
                 if rr.panicked { problems.push(format!("[C10-handler-panic] SendBlock panicked: {}", super::last_panic())); }
                 let after: Vec<u64> = net.storage.get_filter_scripts().iter().map(|s| s.block_number).collect();
                 if after != before {
-                    problems.push(format!("[C06-unproven-block-indexed] a SendBlock for a matched hash that was never proven (a block of another branch) was processed: script numbers {:?} -> {:?}", before, after));
+                    problems.push(format!("[C06-unproven-block-indexed] [C02-unproven-block-indexed] a SendBlock for a matched hash that was never proven (a block of another branch) was processed: script numbers {:?} -> {:?}", before, after));
                 }
             }
             for ss in net.storage.get_filter_scripts() {
